@@ -16,12 +16,14 @@ def s20_group(ctx, drv=None, name="S20-group"):
 
     drv = drv or ctx.driver
     res = StreamResult(name, rule=("REGENERATED loop (Lean, compiled into gen_c20) instead of the hand model: " if name != "S20-group" else "") + "description lists with 1..5 names in every kind of order: k x s interleaving as produced by "
-                       "subsample_networks, sorted, random shuffles, single; non-trivial = some name occurs in two non-adjacent positions")
+                       "subsample_networks, sorted, random shuffles, single; names differing only in letter case or a trailing blank are different names; non-trivial = some name occurs in two non-adjacent positions")
     rng = rng_for(ctx.seed, "S20g" + name)
-    cases = [["a", "b", "a", "b"], ["a"], ["a", "a"], ["x", "y", "z"] * 3]
+    cases = [["a", "b", "a", "b"], ["a"], ["a", "a"], ["x", "y", "z"] * 3, ["KB11", "kb11", "H"] * 3, ["Net 1", "net 1"] * 2, ["a ", "a"] * 2]
     for _ in range(budget(ctx.tier, 300, 8000)):
         k, s = rng.randint(1, 5), rng.randint(1, 6)
         names = [rng.choice(["n", "net", "Kallo", "b b", "ä"]) + str(i) for i in range(k)]
+        if k >= 2 and rng.random() < 0.2:
+            names[1] = names[0].swapcase() if names[0].swapcase() != names[0] else names[0] + " "  # names that differ in letter case / a trailing blank only
         mode = rng.random()
         lst = names * s if mode < 0.4 else sorted(names * s) if mode < 0.5 else rng.sample(names * s, k * s)
         cases.append(lst)
